@@ -21,7 +21,7 @@ PROPS = {
                       "status codes are non-zero; hooks do not re-enter the writer; Hijack/Push not modelled",
         "n_quick": 4000, "n_thorough": 60000, "exhaustive_in_thorough": True,
         "rule": "random op sequences (<=12 ops; WriteHeader codes 100..999, Write of 0..5 arbitrary bytes with an underlying writer that "
-                "sometimes accepts fewer, Flush, Before - one in five panicking -, Status, Size, Written) for HEAD and other methods; thorough adds every sequence "
+                "sometimes accepts fewer, Flush, Before - one in five panicking -, Status, Size, Written) for HEAD and other methods, on an underlying writer that is an http.Flusher (four cases in five) or is not; thorough adds every sequence "
                 "of length <=5 over a 9-op alphabet x {GET,HEAD}.  Non-trivial: a hook is registered and >=2 operations can trigger the "
                 "status line; distinct by input.",
         "what": "Theorems (coq/Props/C13.v): for every method and every op sequence the model of response_writer.go is accepted by the "
@@ -40,7 +40,7 @@ PROPS = {
         "level_note": "trusts Coq kernel, extraction, glue; handlers are scripted programs over {WriteHeader, Write, Next, Cancel, panic, return values}; "
                       "writes go through Context.ResponseWriter(); a handler re-mapping http.ResponseWriter is outside the model",
         "rule": "random stacks: 0-3 middleware (one Use call each), 0-2 nested groups with 0-2 handlers, 0-3 route handlers, optional action; "
-                "each handler <=4 actions (WriteHeader/Write/Next/Cancel/Panic) and an optional return value of the C14 shapes; 20% HEAD. "
+                "each handler <=4 actions (WriteHeader/Write/Next/Cancel - of the request context or of a derived context that replaced it - /Panic) and an optional return value of the C14 shapes; 20% HEAD. "
                 "Non-trivial: >=2 handlers and (a handler calls Next twice or >=2 Next calls overall); distinct by input.",
         "what": "Model run()/Next()/Recovery vs real ServeHTTP: full Enter/Exit/Unwind/NextCall/NextRet trace (with the status and "
                 "cancellation each handler sees on entry), final status, body chunks, escaped panic.",
@@ -52,7 +52,7 @@ PROPS = {
         "level_text": "proof: render_table / empty_writes_nothing / response_is_written (coq/Props/C14.v) for every value of the supported return "
                       "shapes of the Gallina model of return_handler.go; tied to the code by handlers of every shape (string, []byte incl. nil "
                       "and empty non-nil, error nil/non-nil of three concrete types, *string, (int,X), (X,error)) at every chain position, invoked "
-                      "reflectively and through the func() (int,string) fast path",
+                      "reflectively and through the func() (int,string) fast path, also behind a middleware that re-maps http.ResponseWriter to a marking wrapper (C14_override: the table writes through the writer found in the injector)",
         "level_note": "trusts Coq kernel, extraction, glue; reflect's Value.IsZero/Kind behaviour is modelled for the supported shapes only; "
                       "a ReturnHandler mapped in the request or application scope is part of the model (C14_override) and of the generator",
         "rule": "random chains of 1-6 handlers where about half are pure 'return a value' handlers of a random supported shape (values: empty, "
@@ -67,7 +67,7 @@ PROPS = {
         "level_text": "proof: theorems of coq/Props/C15.v about the Gallina model of Recovery inside the chain model, for Recovery at any position, "
                       "panics of any value at any later position and phase; tied to the code by running the real flamego.Recovery() in scripted "
                       "stacks with panics of string/error/runtime-error/struct/http.ErrAbortHandler values and unresolvable handler parameters, "
-                      "1-3 requests per instance, development and production mode",
+                      "1-3 requests per instance, development, production and test mode, also with http.ResponseWriter re-mapped to a marking wrapper (C15_response); the panic detail is recognised by the text of the panic value, not by the layout or wording of the page",
         "level_note": "trusts Coq kernel, extraction, glue; hypothesis H1 (handlers placed before Recovery call Next at most once and do not panic) "
                       "is required: without it the statement is false of the code (known finding F16); panic(nil) is outside the domain",
         "rule": "stacks with Recovery after 0-2 non-panicking middleware (<=1 Next each), then 1-6 handlers of which half may panic (7 value kinds) "
@@ -80,7 +80,7 @@ PROPS = {
     "C01": {
         "n_quick": 1500, "n_thorough": 37500,
         "technique": 'Coq proof (soundness of the tree matcher by nested induction) + correspondence model ~ implementation ~ declarative priority spec',
-        "level_text": 'proof: C01_dispatch_iff / C01_dispatch_iff_parsed (the latter without any hypothesis, for routes returned by the parser; for every list of accepted registrations, every path and header predicate: dispatched iff some registered route - long or short form - admits the segments and its constraints hold; hence fall-back, never not-found while an admitting route exists), C01_dispatch_sound(_registered), C01_registration_invariant (children sorted by rank with stable insertion, distinct keys, match-all last; exactly the paths of the route itself are added), C01_regex_exact; C01_priority / C01_priority_parsed: the candidates of a request (every match of every registered route whose constraints hold, each with its key (fallback, rank, birth, captured) per depth) are exactly the admitting forms, and the matcher answers with a candidate of least key - static < regex < placeholder < match-all, earlier-registered first among equals (birth = least route id below, C01_birth_is_least_id), fewest captured segments, final match-all last; C01_ordering_invariant (children sorted by (rank, birth)); C01_router_priority (the same for what the router serves in every reachable state, per method, with header gating); the brute-force reading of the same order over the route list (RouteSpec.spec_winner) additionally judges the answer of the implementation on every request',
+        "level_text": 'proof: C01_dispatch_iff / C01_dispatch_iff_parsed (the latter without any hypothesis, for routes returned by the parser; for every list of accepted registrations, every path and header predicate: dispatched iff some registered route - long or short form - admits the segments and its constraints hold; hence fall-back, never not-found while an admitting route exists), C01_dispatch_sound(_registered), C01_registration_invariant (children sorted by rank with stable insertion, distinct keys, match-all last; exactly the paths of the route itself are added), C01_regex_exact; C01_priority / C01_priority_parsed: the candidates of a request (every match of every registered route whose constraints hold, each with its key (fallback, rank, birth, captured) per depth) are exactly the admitting forms, and the matcher answers with a candidate of least key - static < regex < placeholder < match-all, earlier-registered first among equals (birth = least route id below, C01_birth_is_least_id), fewest captured segments, final match-all last; C01_ordering_invariant (children sorted by (rank, birth)); C01_router_priority (the same for what the router serves in every reachable state, per method, with header gating); C01_priority_over_routes / _parsed / C01_router_priority_over_routes: RouteSpec.spec_winner - the documented order read over the LIST of registered routes, no tree in sight - equals what the tree matcher (and, in every reachable state, the router) answers; spec_winner additionally judges the answer of the implementation on every request; C01_source_styles ties the ranks to the order of the matchStyle constants in the regenerated SourceFacts.v',
         "level_note": 'trusts Coq kernel, extraction, glue; Go regexp is modelled for a fragment (literals, classes, ., concatenation, alternation, greedy * + ? with non-nullable bodies, groups); regex subjects are ASCII; inner groups are non-capturing in the model',
         "rule": 'random registration/Headers/request histories: 1-7 registrations from a collision-rich segment pool (statics incl. regex metacharacters, placeholders, regex segments with several binds / inner groups / random regex ASTs, match-all with capture 1|2|-1|3x, optional last segment, trailing slash), methods GET/other/Any/lower-case, ~8% ill-formed registrations; requests = instances of registered routes (regex parts sampled from the AST), perturbed instances, random segment strings; headers on ~10% of registrations. After a rejected registration the run continues on an instance rebuilt from the accepted operations (AddRoute is not atomic, F11). Non-trivial: a request that >= 2 derivations (routes or capture lengths) admit.',
         "what": 'model (tree insert + match, shortcut, headers) vs ServeHTTP: accept/reject of each registration and chosen route + params of each request; spec: the chosen route equals spec_winner (flat routes x derivations, least key (fallback,rank,birth,captured) per depth)',
@@ -89,7 +89,7 @@ PROPS = {
     "C02": {
         "n_quick": 1500, "n_thorough": 37500,
         "technique": 'Coq proof (capture frame lemma over the CPS matcher) + correspondence on delivered parameter maps',
-        "level_text": 'proof: C02_regex_segment_values (binds of a regex segment get exactly the part their own expression matched in full, literals literal, parts concatenate), C02_regex_segment_accepts, C02_delivered_values (values are those of an adm derivation, decoded once), C02_roundtrip (substituting the values back into the route, with the optional segment iff the request used it, reproduces the path), C02_names (names are exactly the binds of the matched form, pairwise distinct)',
+        "level_text": 'proof: C02_regex_segment_values (binds of a regex segment get exactly the part their own expression matched in full, literals literal, parts concatenate), C02_regex_segment_accepts, C02_delivered_values (values are those of an adm derivation, decoded once), C02_roundtrip (substituting the values back into the route, with the optional segment iff the request used it, reproduces the path), C02_names (names are exactly the binds of the matched form, pairwise distinct), C02_reserved_route (in the map handlers get, route is the canonical text of the matched route, shadowing a bind of that name; Router.deliver is extracted and used by the correspondence)',
         "level_note": 'trusts Coq kernel, extraction, glue; Go regexp is modelled for a fragment (literals, classes, ., concatenation, alternation, greedy * + ? with non-nullable bodies, groups); regex subjects are ASCII; inner groups are non-capturing in the model; url.PathUnescape is re-implemented (validated by the correspondence)',
         "rule": 'random registration/Headers/request histories: 1-7 registrations from a collision-rich segment pool (statics incl. regex metacharacters, placeholders, regex segments with several binds / inner groups / random regex ASTs, match-all with capture 1|2|-1|3x, optional last segment, trailing slash), methods GET/other/Any/lower-case, ~8% ill-formed registrations; requests = instances of registered routes (regex parts sampled from the AST), perturbed instances, random segment strings; paths biased to regex segments, %-escapes valid/invalid/%2F. After a rejected registration the run continues on an instance rebuilt from the accepted operations (AddRoute is not atomic, F11). Non-trivial: the dispatched route has a regex-style segment.',
         "what": "delivered Params() map of every dispatched request vs model; spec: the values are a capture of the chosen route's pattern (every decomposition checked with the regex semantics), decoded once, and 'route' is the canonical text",
@@ -98,7 +98,7 @@ PROPS = {
     "C07": {
         "n_quick": 1500, "n_thorough": 37500,
         "technique": 'Coq proof (refinement of an index-level transcription of the matcher, whose slice expressions can fail, to the segment-level matcher) + hostile-input correspondence under recover()',
-        "level_text": 'proof: C07_matcher_never_panics / C07_index_matcher_refines - the matcher written over the path and a byte index exactly as tree.go and leaf.go do (path[next:], path[next:next+i], next+i+1, path[next-1:], the match-all loop), with out-of-range slices modelled as a panic value, never panics for any tree and any byte string and returns what the segment-level matcher returns on the split path; C07_one_outcome / C07_unknown_method_not_found / C07_path_has_segments about the total model of ServeHTTP; that the transcription is faithful is tied by the hostile stream (arbitrary bytes as path, arbitrary method tokens) under recover()',
+        "level_text": 'proof: C07_matcher_never_panics / C07_index_matcher_refines - the matcher written over the path and a byte index exactly as tree.go and leaf.go do (path[next:], path[next:next+i], next+i+1, path[next-1:], the match-all loop), with out-of-range slices modelled as a panic value, never panics for any tree and any byte string and returns what the segment-level matcher returns on the split path; C07_one_outcome / C07_unknown_method_not_found / C07_path_has_segments about the total model of ServeHTTP; that the transcription is faithful is tied by the hostile stream (arbitrary bytes as path, arbitrary method tokens) under recover(); C07_source_methods: the model has one method tree per entry of httpMethods in router.go as regenerated into SourceFacts.v, the nine standard tokens',
         "level_note": 'trusts Coq kernel, extraction, glue; segment-level model; Go regexp is modelled for a fragment (literals, classes, ., concatenation, alternation, greedy * + ? with non-nullable bodies, groups); regex subjects are ASCII; inner groups are non-capturing in the model',
         "rule": 'random registration/Headers/request histories: 1-7 registrations from a collision-rich segment pool (statics incl. regex metacharacters, placeholders, regex segments with several binds / inner groups / random regex ASTs, match-all with capture 1|2|-1|3x, optional last segment, trailing slash), methods GET/other/Any/lower-case, ~8% ill-formed registrations; requests = instances of registered routes (regex parts sampled from the AST), perturbed instances, random segment strings; a third of the requests use hostile paths (empty, slash runs, arbitrary bytes, malformed %-escapes, non-UTF-8, long) and odd method tokens. After a rejected registration the run continues on an instance rebuilt from the accepted operations (AddRoute is not atomic, F11). Non-trivial: unknown method or a path with bytes outside printable ASCII.',
         "what": 'every request served twice under recover(): no panic, exactly one chain (counter in the first middleware), same outcome; outcome vs model',
@@ -161,9 +161,9 @@ PROPS = {
     "C04": {
         "n_quick": 4000, "n_thorough": 100000,
         "technique": "Coq proof (characterisation of Value over scope chains, Invoke/Apply by induction over parameters) + correspondence with reflect-built handlers",
-        "level_text": "proof: C04_exact_nearest / C04_implementors_before_parent / C04_else_parent / C04_replace / C04_request_sees_own / C04_request_local / C04_invoke_error / C04_invoke_args / C04_fast_eq for every type universe and every chain of scopes; tied to the code by Map/MapTo/Set/Value/Invoke/Apply histories on 1-3 nested injectors over an 11-type universe (int, string, *struct, struct, chan, <-chan via Set, two nested interfaces, interface{}, named int, plain struct; implements table computed by reflect), handlers built with reflect.MakeFunc for random signatures plus two hand-written FastInvoker types, structs built with reflect.StructOf (tagged, untagged, unexported fields), and Flame-level requests whose handlers map values for later handlers",
+        "level_text": "proof: C04_exact_nearest / C04_implementors_before_parent / C04_else_parent / C04_replace / C04_request_sees_own / C04_request_local / C04_invoke_error / C04_invoke_args / C04_fast_eq, C04_invalid_is_absent / C04_admissible (an entry holding an invalid reflect.Value hides nothing in outer scopes) for every type universe and every chain of scopes; tied to the code by Map/MapTo/Set/Value/Invoke/Apply histories on 1-3 nested injectors over an 11-type universe (int, string, *struct, struct, chan, <-chan via Set, two nested interfaces, interface{}, named int, plain struct; implements table computed by reflect), handlers built with reflect.MakeFunc for random signatures plus two hand-written FastInvoker types, structs built with reflect.StructOf (tagged, untagged, unexported fields), and Flame-level requests whose handlers map values for later handlers",
         "level_note": "trusts Coq kernel, extraction, glue; where Go iterates a map and takes any implementor the model answers the set of admissible values and the comparison is membership; reflect's call mechanics are not modelled",
-        "rule": "3-12 operations per history (30% Map, 15% MapTo, Set of <-chan, Value, Invoke with 0-3 random parameter types or plain+fast pairs, Apply with 1-4 fields, Flame requests with 1-2 requests x 1-3 handlers mapping 0-1 values). Non-trivial: an Invoke with >= 2 parameters, a Value with several admissible implementors, or a request-scope scenario; distinct by input.",
+        "rule": "3-12 operations per history (30% Map, 15% MapTo, Set of <-chan, in a quarter of the cases Set(t, reflect.Value{}) under concrete types together with a valid registration and a look-up of the same type - such cases ask for no interface{} because with an invalid value under an implementing key the answer of Go depends on map iteration order -, Value, Invoke with 0-3 random parameter types or plain+fast pairs, Apply with 1-4 fields, Flame requests with 1-2 requests x 1-3 handlers mapping 0-1 values). Non-trivial: an Invoke with >= 2 parameters, a Value with several admissible implementors, or a request-scope scenario; distinct by input.",
         "what": "per operation: value identity / none, call with argument identities + call count + results unchanged, error naming the type + call count 0, fields set by Apply; model vs implementation (membership for implementor choice).",
         "assumes": ["Set is used with values of the key type"],
     },
@@ -172,7 +172,7 @@ PROPS = {
         "technique": "Coq proof (escape/unescape round trip by induction over all byte strings, finite hex-digit facts by computation) + correspondence on accessor outputs and a Set-Cookie/Cookie exchange",
         "level_text": "proof (partial): C18_cookie_roundtrip, C18_unescape_escape, C18_escaped_value_is_cookie_safe for every byte string; C18_default_rule_present/absent for the accessor rule; tied to the code by reading Query/QueryTrim/QueryUnescape/QueryBool/QueryInt/QueryInt64/Param/ParamInt/ParamInt64/Cookie with and without defaults for arbitrary byte strings (control bytes, separators, quotes, non-ASCII, huge numbers) and by feeding the Set-Cookie header back as a Cookie header",
         "level_note": "trusts Coq kernel, extraction, glue; net/url escaping, strconv integer/bool parsing, strings.TrimSpace (ASCII and 2-byte Unicode spaces) and the cookie byte rule are re-implemented and validated by the correspondence; ParseFloat, url.Values query decoding and net/http's cookie header parsing are oracles (partial)",
-        "rule": "query value, path parameter and cookie value drawn from a 46-string pool (empty, spaces, %-sequences, booleans, decimal numbers incl. int64 boundaries and overflow, underscores, hex, control bytes, separators ; , space quote backslash, NUL, DEL, invalid UTF-8, 2-byte Unicode spaces) or random bytes; each default present half of the time. Non-trivial: the cookie value contains a byte that needs escaping; distinct by input.",
+        "rule": "query value, path parameter and cookie value drawn from a 46-string pool (empty, spaces, %-sequences, booleans, decimal numbers incl. int64 boundaries and overflow, underscores, hex, control bytes, separators ; , space quote backslash, NUL, DEL, invalid UTF-8, 2-byte Unicode spaces) or random bytes; each default present half of the time; one case in five rewrites the query while the request is served and reads it again. Non-trivial: the cookie value contains a byte that needs escaping; distinct by input.",
         "what": "13 accessor outputs per case vs model; spec: no panic, cookie read back = value written, absent parameter yields the caller's default unchanged or zero.",
         "assumes": ["bytes are < 256"],
     },
@@ -181,7 +181,7 @@ PROPS = {
         "technique": "Coq proof (path cleaning invariant by induction; case analysis of the decision function) + correspondence over a real directory tree",
         "level_text": "proof (partial): C16_clean_no_dotdot / C16_clean_no_slash for every byte string, C16_contained (whatever is served is a regular file reached by plain components below the directory), C16_other_methods_silent, C16_prefix_boundary, C16_redirect_slash about the Gallina model of static.go over a model of path.Clean / http.Dir.Open / a file tree; tied to the code by serving requests over a real temp tree with files outside the served directory, a sibling directory whose name extends it, a directory named like the prefix and one named like the index file",
         "level_note": "trusts Coq kernel, extraction, glue; http.Dir, os (symbolic links), http.ServeContent (Range/If-Modified-Since) are modelled or oracles, validated by the correspondence only; request paths start with '/'",
-        "rule": "half of the paths are real paths of the tree or classic traversals (/../secret.txt, /sub/../../secret.txt, //a.txt, /a.txt/..), half are 0-4 random components from a 27-entry pool (tree names, .., ., empty, NUL, %2e%2e, ..., names outside the directory), with doubled and trailing slashes; prefix from 8 spellings with look-alikes (prefix+'x', prefix+'2'); methods GET 75% / HEAD / others; Index custom 20%; ETag/Expires/CacheControl toggled; with ETag a second request carries If-None-Match. Non-trivial: something is served/redirected, or a path with '..' is passed on; distinct by input.",
+        "rule": "half of the paths are real paths of the tree or classic traversals (/../secret.txt, /sub/../../secret.txt, //a.txt, /a.txt/..), half are 0-4 random components from a 27-entry pool (tree names, .., ., empty, NUL, %2e%2e, ..., names outside the directory), with doubled and trailing slashes; prefix from 8 spellings with look-alikes (prefix+'x', prefix+'2'); methods GET 75% / HEAD / others; Index custom 20%; ETag/Expires/CacheControl toggled; with ETag a second request carries If-None-Match; one case in six leaves Directory empty and runs in a working directory whose public entry is the tree. Non-trivial: something is served/redirected, or a path with '..' is passed on; distinct by input.",
         "what": "pass / redirect Location / served file identity (+ header presence) / 304 per request vs model; spec: served files are inside the directory, only GET/HEAD under the prefix boundary are answered, redirects end in '/'.",
         "assumes": ["URL.Path starts with '/'", "no symbolic links in the served tree"],
     },
